@@ -212,3 +212,24 @@ Qed.
 Lemma set_tpi_params_unchecked_refuted :
   exists p, set_tpi_params 0 13 5 5 None = Some p /\ payload_ok V_W 0x1100 p = true /\ parser_1100 p = Raise AssertionError.
 Proof. eexists. split; [reflexivity|]. vm_compute. split; reflexivity. Qed.
+
+(* ---------------------------------------------------------------- put_weather_temp / parser_0002 *)
+Definition sym_wt : list sym := slit "00" ++ shex 4 ++ slit "01".
+Lemma wt_shape : spayload_ok V_I 0x0002 sym_wt = true.
+Proof. vm_compute. reflexivity. Qed.
+Theorem put_weather_temp_valid w : (forall x, w = Some x -> 0 <= x < 65536) ->
+  payload_ok V_I 0x0002 (put_weather_payload w) = true /\
+  parser_0002 (put_weather_payload w) = (do t <- hex_to_temp (word_of_opt w); Ok (t, lit "01")).
+Proof.
+  intros Hw. assert (Ww : 0 <= word_of_opt w < 65536) by (destruct w as [x|]; cbn; [apply Hw; reflexivity | lia]).
+  split.
+  - apply (spayload_ok_sound V_I 0x0002 sym_wt _ wt_shape). unfold sym_wt, put_weather_payload.
+    apply (conc_app _ _ (lit "00") _ (conc_slit "00")). apply (conc_app _ _ (hexN 4 _) (lit "01") (conc_hexN 4 _) (conc_slit "01")).
+  - unfold parser_0002, put_weather_payload.
+    rewrite (slice_mid (lit "00") (hexN 4 (word_of_opt w)) (lit "01") 2 6 eq_refl (hexN_length 4 _)).
+    rewrite hexN_length. cbn [Nat.eqb negb]. rewrite temp_s_hexN by exact Ww.
+    assert (E : skipn 6 (lit "00" ++ hexN 4 (word_of_opt w) ++ lit "01") = lit "01").
+    { rewrite app_assoc. replace 6%nat with (List.length (lit "00" ++ hexN 4 (word_of_opt w))) by (rewrite app_length, hexN_length; reflexivity).
+      rewrite skipn_app, skipn_all, Nat.sub_diag. reflexivity. }
+    rewrite E. reflexivity.
+Qed.
